@@ -20,6 +20,7 @@ func init() {
 		ruleL4(c, "C06.L4")
 		ruleL5(c, "C06.L5")
 		ruleT3(c, "C06.L6")
+		ruleG4(c, "C06.L7")
 	}
 }
 
@@ -92,6 +93,28 @@ func ruleL1(c *Ctx, id string) {
 			R.PassNT(id, key, P.Pos(s.pos), "nested acquisition matches an ordering idiom", idiom+": "+why+"; "+ctx)
 		} else {
 			R.Fail(id, key+"|no-order-idiom", P.Pos(s.pos), "nested acquisition matches an ordering idiom (guarded ascending, sorted loop, allocator-fresh, owned)", why+"; "+ctx+": two requests can take the same two locks in opposite orders and wait for each other for ever")
+			// a site without an order must at least not ask for a lock its own transaction holds
+			// (a separate obligation: the missing order may be a recorded finding, a self-deadlock is another defect)
+			num := stripConv(argN(s.instr, 0))
+			notOwned := guardedBy(s.instr.Parent(), s.instr.Block(), func(cd Cond) (bool, bool) {
+				if cd.Op != token.ILLEGAL {
+					return false, false
+				}
+				oc, ok := cd.X.(*ssa.Call)
+				if !ok || oc.Call.StaticCallee() != V.OwnInum {
+					return false, false
+				}
+				if other := stripConv(argN(oc, 0)); other != num {
+					// two loads of the same field of the same value (de.inum read twice)
+					n1, f1, b1, _ := loadedField(other)
+					n2, f2, b2, _ := loadedField(num)
+					if n1 == nil || n1 != n2 || f1 != f2 || b1 != b2 {
+						return false, false
+					}
+				}
+				return true, false
+			})
+			R.Check(notOwned, id, key+"|not already owned", P.Pos(s.pos), "a nested acquisition by number is on the OwnInum(number) == false edge", "guarded by !OwnInum of the same number", "the transaction can ask for a lock it already holds (the lock is not re-entrant): the request waits for itself for ever, holding its other locks")
 		}
 	}
 	// lockInodes must be entered lock-free, and its loop must be a sound sorted loop
